@@ -88,6 +88,7 @@ theorem atomic_cases (x : Exec) (f : Exec → Exec) :
     · exact Or.inl ⟨r, rfl⟩
     · exact Or.inr (Or.inl ⟨r, rfl⟩)
     · exact Or.inr (Or.inr ⟨r, rfl⟩)
+    · exact Or.inr (Or.inl ⟨r, rfl⟩)
 
 theorem atomic_sim (x : Exec) (f : Exec → Exec) (a' : Abs)
     (hf : ∀ r, absOf (f { x with orc := r }).st = a') :
@@ -105,6 +106,7 @@ theorem copyChunks_abs (k w : Nat) (x : Exec) : absOf (copyChunks k w x).1.st = 
       · simp only []
         rw [ih]
         rfl
+      · rfl
       · rfl
       · rfl
 
